@@ -11,17 +11,20 @@ ID = 'C08'
 LEVEL = 'exploration'
 PROVISION = False
 RULE = ('1..3 connections issuing sequences of activate / deactivate (global, module, parameter scope), *IDN?, disconnect, '
-        'interleaved with 1..2 updater threads assigning increasing versions to the parameters of 2 modules; schedules: '
+        'interleaved with 1..2 updater threads assigning unique values to the parameters of 2 modules (half of the two-updater '
+        'scenarios let both threads write the same parameters); schedules: '
         'bounded-preemption enumeration pb(1)/pb(2) of a small scenario (time-boxed), PCT(1..3), random walk, with LINE '
         'yield points in handle_activate / handle_deactivate / subscribe / unsubscribe / reset_connection / '
         'broadcast_event / make_update / announceUpdate. distinct = schedule signature x scenario; non-trivial = run with '
         'at least one preemption between a boundary request and an update')
-ASSUMPTIONS = ['each parameter is written by exactly one updater thread with increasing integers (= versions)',
+ASSUMPTIONS = ['every assigned value is unique; the version of a value is its position in the order in which the cache took the '
+               'values, observed by a parameter callback (Module.addCallback), which announceUpdate calls while it holds the '
+               'module\'s update lock',
                'deactivate <scope> ends that scope (a module scope also its parameter scopes), global deactivate ends the global scope, '
                '*IDN? and disconnect end all scopes of the connection',
                'changes overlapping a boundary request may be delivered or not; only definite coverage / definite non-coverage is judged']
 REQUIRED = ['runs', 'preempted_runs', 'activations_checked', 'changes_checked_must_deliver', 'changes_checked_must_not_deliver',
-            'monotonic_sequences', 'pb_runs']
+            'monotonic_sequences', 'pb_runs', 'runs_with_shared_parameters']
 
 N = {'quick': 160, 'thorough': 20000}
 MODS = {'m0': ['x', 'y'], 'm1': ['x', 'y', 'z']}
@@ -62,9 +65,14 @@ class World:
         nupd = 1 if small else rng.choice([1, 2])
         params = [(mn, p) for mn, ps in MODS.items() for p in ps]
         owners = {pp: rng.randrange(nupd) for pp in params}
+        # shared: several updater threads write the same parameters (unique values, the version order is the
+        # order in which the cache took them, observed through a parameter callback)
+        shared = (not small) and nupd > 1 and rng.random() < 0.5
         upd = []
         for u in range(nupd):
             mine = [pp for pp in params if owners[pp] == u]
+            if shared:
+                mine = rng.sample(params, 2)
             if small:
                 mine = mine[:2]
             seq = [rng.choice(mine) for _ in range(2 if small else rng.randint(2, 6))] if mine else []
@@ -90,7 +98,7 @@ class World:
                     reqs.append(['disconnect', None])
                     live = []
             conns.append(reqs)
-        return {'conns': conns, 'updaters': upd}
+        return {'conns': conns, 'updaters': upd, 'shared': shared}
 
     # ---------------------------------------------------------------- one run
     def run(self, scen, strategy, seed):
@@ -99,6 +107,11 @@ class World:
         disp = node.dispatcher
         mods = node.secnode.modules
         version = {}
+        order = {}
+        for mn, ps in MODS.items():
+            for p in ps:
+                mods[mn].addCallback(p, lambda value, *err, _k=(mn, p): order.setdefault(_k, []).append(int(value)))
+        shared = scen.get('shared')
 
         class Conn(self.nodes.Conn):
             def send_reply(self_inner, msg):
@@ -111,8 +124,10 @@ class World:
         def updater(u):
             s = D.CURRENT
             for mn, p in scen['updaters'][u]:
-                v = version.get((mn, p), 0) + 1
-                version[(mn, p)] = v
+                v = version.get((mn, p, u if shared else None), 0) + 1
+                version[(mn, p, u if shared else None)] = v
+                if shared:
+                    v += (u + 1) * 100000
                 s.log('chg-call', mn, p, v)
                 setattr(mods[mn], p, v)
                 s.log('chg-ret', mn, p, v)
@@ -167,7 +182,7 @@ class World:
         if s.escaped:
             r.violation('C08/exception-escapes-thread', f'{s.escaped[0][:2]}', dict(case, traceback=s.escaped[0][2]))
             return s
-        self.judge(s, mods, case)
+        self.judge(s, mods, case, order)
         return s
 
     # ---------------------------------------------------------------- offline checker
@@ -179,16 +194,36 @@ class World:
             return scope == f'{mn}:_{p}'
         return scope == mn
 
-    def judge(self, s, mods, case):
+    def judge(self, s, mods, case, order):
         r = self.r
         ev = s.events
+        # value -> version: position in the order in which the cache took the values
+        ver = {k: {val: i + 1 for i, val in enumerate(seq)} for k, seq in order.items()}
+
+        def version_of(mn, p, val):
+            if val == 0:
+                return 0
+            return ver.get((mn, p), {}).get(val)
+        for k, seq in order.items():
+            if len(set(seq)) != len(seq):
+                r.inconclusive.append('a value entered the cache twice: version order ambiguous')
+                return
+        if case['scenario'].get('shared'):
+            r.count('runs_with_shared_parameters')
         conns = sorted({e[4] for e in ev if e[3] in ('req-call', 'msg')})
         changes = {}
         for e in ev:
-            if e[3] == 'chg-call':
-                changes[(e[4], e[5], e[6])] = [e[0], None]
-            elif e[3] == 'chg-ret':
-                changes[(e[4], e[5], e[6])][1] = e[0]
+            if e[3] in ('chg-call', 'chg-ret'):
+                v = version_of(e[4], e[5], e[6])
+                if v is None:
+                    if e[3] == 'chg-ret':
+                        r.violation('C08/assigned-value-never-reached-cache', f'{e[4]}:{e[5]}={e[6]} was assigned but the parameter callbacks never saw it', case)
+                        return
+                    continue    # call without return (cannot happen in a finished run)
+                if e[3] == 'chg-call':
+                    changes[(e[4], e[5], v)] = [e[0], None]
+                elif (e[4], e[5], v) in changes:
+                    changes[(e[4], e[5], v)][1] = e[0]
         INF = 10 ** 9
         for cname in conns:
             # ---- scope intervals of this connection: [act_call, act_ret, end_call, end_ret]
@@ -224,7 +259,14 @@ class World:
             # ---- (2) versions never go backwards per parameter
             per = {}
             for idx, m in msgs:
-                per.setdefault(m[1], []).append((idx, m[2][0] if m[0] == 'update' else None))
+                v = None
+                if m[0] == 'update':
+                    mn_, _, p_ = m[1].partition(':_')
+                    v = version_of(mn_, p_, m[2][0])
+                    if v is None:
+                        r.violation('C08/delivered-value-never-in-cache', f'{cname}: {m[1]}={m[2][0]} delivered, the cache never held it', dict(case, conn=cname))
+                        return
+                per.setdefault(m[1], []).append((idx, v))
             for ident, seq in per.items():
                 r.count('monotonic_sequences')
                 vs = [v for _, v in seq if v is not None]
@@ -285,8 +327,9 @@ class World:
                     for p in ps:
                         if self.covers(sc['scope'], mn, p):
                             seq = [v for _, v in per.get(f'{mn}:_{p}', [])]
-                            if not seq or seq[-1] != mods[mn].parameters[p].value:
-                                r.violation('C08/last-message-differs-from-cache', f'{cname}: {mn}:{p} last delivered {seq[-1:] or None}, cache {mods[mn].parameters[p].value}',
+                            final = version_of(mn, p, int(mods[mn].parameters[p].value))
+                            if not seq or seq[-1] != final:
+                                r.violation('C08/last-message-differs-from-cache', f'{cname}: {mn}:{p} last delivered version {seq[-1:] or None}, cache holds version {final}',
                                             dict(case, conn=cname))
                                 return
 
